@@ -64,26 +64,47 @@ def run(report, p):
                     tt = [x for x, l in g.control_deps(raises[0], transitive=False)][0]
                     r1.check(g.dominates(tt, g.node_for(c)), f, c, "generations are listed before the empty-history check", construct="listing before check")
     g = cfg_of(info)
+    # the upward search lives in `info` itself or in a helper it calls
+    sf = info
     wl = [n for n in walk_no_nested(info.node) if isinstance(n, ast.While)]
-    r1.instance(info, wl[0] if wl else info.node, "upward search")
-    ok = len(wl) == 1
+    if not wl:
+        for c, tg in p.calls[info.qual]:
+            for t in tg:
+                if t in p.funcs and p.funcs[t].module is info.module and [n for n in walk_no_nested(p.funcs[t].node) if isinstance(n, ast.While)]:
+                    sf = p.funcs[t]
+                    wl = [n for n in walk_no_nested(sf.node) if isinstance(n, ast.While)]
+    if len(wl) != 1:
+        raise AnalysisError("info: upward search loop for the enclosing history not found (neither in info nor in a helper it calls)")
+    r1.instance(sf, wl[0], "upward search")
+    w = wl[0]
+    t = norm(w)
+    m = [n for n in ast.walk(w) if isinstance(n, ast.Assign) and isinstance(n.value, ast.Call) and norm(n.value.func) == "os.path.dirname"]
+    ok = len(m) == 1
     if ok:
-        w = wl[0]
-        t = norm(w)
-        cur = None
-        m = [n for n in ast.walk(w) if isinstance(n, ast.Assign) and isinstance(n.value, ast.Call) and norm(n.value.func) == "os.path.dirname"]
-        ok = len(m) == 1
+        cur = norm(m[0].value.args[0])
+        # found: `root_path = cur; break` or `return cur` under exists(join(cur, ascmhl folder))
+        hits = [n for n in ast.walk(w) if isinstance(n, ast.If) and "os.path.exists" in norm(n.test) and ((any(isinstance(x, ast.Return) and x.value is not None and norm(x.value) == cur for x in n.body)) or (any(isinstance(x, ast.Assign) and norm(x.value) == cur for x in n.body) and any(isinstance(x, ast.Break) for x in n.body)))]
+        ok = len(hits) == 1 and "ascmhl_folder_name" in t
         if ok:
-            cur = norm(m[0].value.args[0])
-            found = [n for n in ast.walk(w) if isinstance(n, ast.Assign) and norm(n.targets[0]) == "root_path" and norm(n.value) == cur]
-            brk_after = found and isinstance(parent(found[0]), ast.If) and any(isinstance(x, ast.Break) for x in parent(found[0]).body) and "ascmhl_folder_name" in t and "os.path.exists" in norm(parent(found[0]).test)
-            start = [n for n in walk_no_nested(info.node) if isinstance(n, ast.Assign) and norm(n.targets[0]) == cur and not any(a is w for a in _anc(n))]
-            ok = bool(brk_after) and len(start) == 1 and "os.path.dirname(os.path.abspath(single_file[0]))" in norm(start[0].value)
-            stop = [n for n in ast.walk(w) if isinstance(n, ast.If) and isinstance(n.test, ast.Compare) and isinstance(n.test.ops[0], ast.Eq) and any(isinstance(x, ast.Break) for x in n.body)]
-            ok = ok and len(stop) == 1
-    r1.check(ok, info, wl[0] if wl else info.node, "the search for the enclosing history does not start at the file's own folder, move up one folder at a time and stop at the first folder that contains an ascmhl folder", construct="nearest enclosing history search")
+            tested = norm(hits[0].test)
+            ev = [n for n in ast.walk(w) if isinstance(n, ast.Assign) and norm(n.targets[0]) in tested and "os.path.join" in norm(n.value)]
+            ok = (f"os.path.join({cur}, ascmhl_folder_name)" in tested) or (len(ev) == 1 and norm(ev[0].value) == f"os.path.join({cur}, ascmhl_folder_name)")
+        start = [n for n in walk_no_nested(sf.node) if isinstance(n, ast.Assign) and norm(n.targets[0]) == cur and not any(a is w for a in _anc(n))]
+        ok = ok and len(start) == 1 and norm(start[0].value).startswith("os.path.dirname(os.path.abspath(")
+        if ok and sf is not info:
+            # the helper is given the first named file
+            hc = [c for c, tg in p.calls[info.qual] if sf.qual in tg]
+            ok = len(hc) == 1 and hc[0].args and norm(hc[0].args[0]) == "single_file[0]" and norm(start[0].value) == f"os.path.dirname(os.path.abspath({sf.params[0]}))"
+        elif ok:
+            ok = "single_file[0]" in norm(start[0].value)
+        stop = [n for n in ast.walk(w) if isinstance(n, ast.If) and isinstance(n.test, ast.Compare) and isinstance(n.test.ops[0], ast.Eq) and any(isinstance(x, (ast.Break, ast.Return)) for x in n.body)]
+        ok = ok and len(stop) == 1
+        # the candidate is tested before moving up (nearest first)
+        gs = cfg_of(sf)
+        ok = ok and gs.node_for(m[0]).id in gs.reachable_from([gs.node_for(hits[0].test)])
+    r1.check(ok, sf, wl[0], "the search for the enclosing history does not start at the file's own folder, move up one folder at a time and stop at the first folder that contains an ascmhl folder", construct="nearest enclosing history search")
     raises = [n for n in g.nodes if n.kind == "stmt" and isinstance(n.ast, ast.Raise) and raised_class(p, info, n.ast) == c30]
-    ok2 = len(raises) == 1 and any(norm(t.ast) == "root_path is None" and l == "T" for t, l in g.control_deps(raises[0], transitive=False))
+    ok2 = len(raises) == 1 and any(norm(t.ast) in ("root_path is None", "root_path == None", "not root_path") and l == "T" for t, l in g.control_deps(raises[0], transitive=False))
     r1.check(ok2, info, raises[0].ast if raises else info.node, "info -sf does not fail with the no-history error when no enclosing history exists", construct="info -sf no history")
 
     # ------------------------------------------------------------------ R19.2
